@@ -92,7 +92,8 @@ def _recipe(kind: str, variant: str, k: int, seed: int) -> Dict[str, Any]:
     acts, cks = [], []
     for i, ph in enumerate(phases):
         acts += ph
-        cks.append({"at": len(acts), "cfg_first": (i + k) % 2 == 0, "warm": (i + k) % 3 == 0})
+        cks.append({"at": len(acts), "cfg_first": (i + k) % 2 == 0, "warm": (i + k) % 3 == 0, "pre": (i + k) % 3,
+                    "child": i == len(phases) - 1 and variant in ("cat", "cat2", "std", "tcn")})
     init = {"train": True, "hard": False, "disable": False, "gumbel": False, "dc": False, "cs": "A" if k % 2 == 0 else "D",
             "fc": k % 2 == 1}
     if kind == "mps" and k % 2 == 0:
@@ -115,6 +116,7 @@ def _corruption_sanity(traces: List[Dict[str, Any]], strict: bool = True) -> Non
     t = copy.deepcopy(base); t["ev"][k]["ck"]["obs"][-1]["r"]["cost"] += 1000; muts.append(("C17.cost", t))
     t = copy.deepcopy(base); t["ev"][k]["ck"]["unexpected"] = ["seed.x.lazy"]; muts.append(("C17.keys", t))
     t = copy.deepcopy(base); t["ev"][k]["ck"]["sd_equal"] = False; muts.append(("C17.state", t))
+    t = copy.deepcopy(base); t["ev"][k]["ck"]["strict_ok"] = False; muts.append(("C17.keys", t))
     t = copy.deepcopy(base); t["ev"][k]["ck"]["exp"]["r"]["sd"] += 1000; muts.append(("C17.export", t))
     verdicts, _ = tlc.validate_traces("CheckpointTrace", "CheckpointTrace", [base] + [m for _, m in muts], workers=2)
     for (want, _), v in zip(muts, verdicts[1:]):
@@ -141,7 +143,8 @@ def _stochastic(seed: int) -> List[Dict[str, Any]]:
                 init = {"train": True, "hard": hard, "gumbel": True, "disable": False, "dc": False,
                         "cs": "A" if j % 3 else "D", "fc": j % 2 == 1}
                 out.append({"kind": kind, "variant": variant, "init": init, "wseed": seed + j, "acts": acts,
-                            "cks": [{"at": len(acts), "cfg_first": j % 2 == 0, "warm": j % 4 == 3}], "src": "stochastic"})
+                            "cks": [{"at": len(acts), "cfg_first": j % 2 == 0, "warm": j % 4 == 3, "pre": j % 3}],
+                            "src": "stochastic"})
     return out
 
 
@@ -155,7 +158,8 @@ def run(tier: str, seed: int, replay=None) -> int:
               "net / nas / all parameters with random data, option calls (temperature, hard, disable_sampling, gumbel, "
               "discrete_cost, PIT mask switches), train_nas_only / train_net_only / train_net_and_nas, train(), eval(), forward, "
               "observer calls}, checkpoint positions with {configuration re-applied before | after load, fresh | already used "
-              "wrapper}).  Histories: one shortest history per abstract state of CheckpointMC for a seeded sample of the states "
+              "wrapper} x {resumed in the process of the original after 0..2 wrappers of other architectures were built | in a fresh "
+              "python process}).  Histories: one shortest history per abstract state of CheckpointMC for a seeded sample of the states "
               "TLC enumerates to closure (every state is checked at design level), checkpoint at the end on the original "
               "object; plus every stochastic configuration (Gumbel sampler, soft / hard, SuperNet and MPS) x k = 0..3 training-mode "
               "forward passes before the checkpoint; the three-phase recipe (warm-up / search / fine-tuning, checkpoint after every phase) on every variant and "
@@ -191,7 +195,8 @@ def run(tier: str, seed: int, replay=None) -> int:
     sfx = "quick" if quick else "thorough"
     rng = random.Random(seed)
     n_states = {"pit": 70, "mps": 110, "sn": 50} if quick else {"pit": 500, "mps": 1200, "sn": 500}
-    variants = {"pit": ["tcn", "cnn2d", "flat"], "mps": ["layer", "channel", "channel0"], "sn": ["std"]} if quick else ckobs.VARIANTS
+    variants = {"pit": ["tcn", "cnn2d", "flat", "cat"], "mps": ["layer", "channel", "channel0", "cat"], "sn": ["std"]} \
+        if quick else ckobs.VARIANTS
     scen: List[Dict[str, Any]] = []
     graph_info = {}
     for kind in ("pit", "mps", "sn"):
@@ -214,7 +219,8 @@ def run(tier: str, seed: int, replay=None) -> int:
             r2 = random.Random(seed * 7919 + len(scen))
             scen.append({"kind": kind, "variant": variants[kind][j % len(variants[kind])], "init": _init_of(kind, st["I"], r2),
                          "wseed": seed, "acts": acts,
-                         "cks": [{"at": len(acts), "cfg_first": r2.random() < 0.5, "warm": r2.random() < 0.35}],
+                         "cks": [{"at": len(acts), "cfg_first": r2.random() < 0.5, "warm": r2.random() < 0.35,
+                                  "pre": r2.choice([0, 1, 2]), "child": j % (12 if quick else 25) == 5}],
                          "mc": {k: st["s"][k] for k in ("net", "nas", "bn", "temp")}, "src": "graph"})
     # sanity (non-vacuity): wrong classifications make TLC exhibit a history that does not resume
     R.design("CheckpointMC", "CheckpointMC_mps_bad_temp", expect_ok=False, workers=2)
@@ -223,6 +229,8 @@ def run(tier: str, seed: int, replay=None) -> int:
     # ... and a sampler that keeps a private random stream (hidden state) does not resume after one training forward
     R.design("CheckpointMC", "CheckpointMC_sn_private_stream", expect_ok=False, workers=2)
     R.design("CheckpointMC", "CheckpointMC_mps_private_stream", expect_ok=False, workers=2)
+    # ... and state_dict keys numbered by a process-global counter depend on the construction index
+    R.design("CheckpointMC", "CheckpointMC_pit_global_counter", expect_ok=False, workers=2)
 
     # code -> spec: long random histories with many checkpoints
     n_rand = {"pit": 14, "mps": 14, "sn": 8} if quick else {"pit": 120, "mps": 120, "sn": 60}
@@ -232,9 +240,9 @@ def run(tier: str, seed: int, replay=None) -> int:
             acts = _random_history(kind, rng, rng.randint(14, 30))
             cks, at = [], rng.randint(1, 4)
             while at < len(acts):
-                cks.append({"at": at, "cfg_first": rng.random() < 0.5, "warm": rng.random() < 0.3})
+                cks.append({"at": at, "cfg_first": rng.random() < 0.5, "warm": rng.random() < 0.3, "pre": rng.choice([0, 0, 1, 2])})
                 at += rng.randint(3, 5)
-            cks.append({"at": len(acts), "cfg_first": rng.random() < 0.5, "warm": rng.random() < 0.3})
+            cks.append({"at": len(acts), "cfg_first": rng.random() < 0.5, "warm": rng.random() < 0.3, "pre": rng.choice([0, 1, 2])})
             init = {"train": rng.random() < 0.75, "hard": kind != "pit" and rng.random() < 0.25,
                     "disable": False, "gumbel": kind != "pit" and rng.random() < 0.3, "dc": kind == "pit" and rng.random() < 0.4,
                     "cs": rng.choice(["A", "A", "D", "B"]), "fc": rng.random() < 0.4}
@@ -277,6 +285,10 @@ def run(tier: str, seed: int, replay=None) -> int:
         "checkpoints_on_the_original_object": sum(1 for c in cks_all if not c["copy"]),
         "checkpoints_with_used_fresh_wrapper": sum(1 for c in cks_all if c["warm"]),
         "checkpoints_configuration_after_load": sum(1 for c in cks_all if not c["cfg_first"]),
+        "checkpoints_resumed_after_other_wrappers_in_same_process": sum(1 for c in cks_all if c["pre_built"] > 0),
+        "checkpoints_resumed_in_a_fresh_process": sum(1 for c in cks_all if c["child"]),
+        "checkpoints_of_nets_with_channel_concat": sum(1 for t in traces if t["variant"] in ("cat", "cat2")
+                                                       for e in t["ev"] if e["act"]["a"] == "ckpt"),
         "history_calls_that_raised": sum(1 for t in traces for e in t["ev"] if e["err"]),
     })
     verdicts = R.validate("CheckpointTrace", "CheckpointTrace", traces, scen, nontrivial=lambda s: len(s["acts"]) > 0,
